@@ -118,6 +118,40 @@ Example T14d_example :
   = Some [PBool false; PFloat 4607182418800017408].
 Proof. vm_compute. reflexivity. Qed.
 
+(* T14d (histories on ONE Parameters object).  dump_file (translated from parameters.py) stores and
+   writes the freshly generated document whatever document the object already held (after a
+   read_file or an earlier dump_file) ... *)
+Theorem T14d_dump_file_regenerates : forall (doc : option tdoc) (g : tdoc),
+  dump_file_document doc g = Some g.
+Proof. exact dump_file_regenerates. Qed.
+Print Assumptions T14d_dump_file_regenerates.
+
+(* ... hence for every history of read_file (existing / missing file), set_value and dump_file on one
+   object, every file written reads back, in a fresh object, as the values held when it was written. *)
+Theorem T14d_history_roundtrip : forall (tk : tdoc -> tdoc),
+  (forall doc k tv, In (k, tv) (tk doc) <-> In (k, tv) doc) ->
+  (forall doc, NoDup (map fst doc) -> NoDup (map fst (tk doc))) ->
+  forall (defaults : pdict) (ops : list pop) o' out,
+    NoDup (map pkey defaults) ->
+    o_run ops (mkObj defaults None) = Some (o', out) ->
+    forall f d, In (f, d) out -> Forall admissible d ->
+      exists d', imp_doc (tk f) defaults = Some d' /\
+        forall k, option_map p_value (dict_get d' k) = option_map p_value (dict_get d k).
+Proof. exact toml_history_roundtrip. Qed.
+Print Assumptions T14d_history_roundtrip.
+
+(* non-vacuity: read a missing file (the default file is created), change a value, dump again: the
+   second file holds the changed value *)
+Example T14d_history_example :
+  let chk := fun _ : pvalue => true in
+  let defaults := [mkParam "max_iterations" "SimpleBounds" TyInt (PInt 1000) chk;
+                   mkParam "dogleg" "TrustRegion" TyBool (PBool true) chk]%string in
+  option_map (fun r => map (fun fd => option_map (map p_value) (imp_doc (fst fd) defaults)) (snd r))
+    (o_run [OpRead None; OpSet ("max_iterations", "SimpleBounds")%string (PInt 77);
+            OpSet ("dogleg", "TrustRegion")%string (PBool false); OpDump] (mkObj defaults None))
+  = Some [Some [PInt 1000; PBool true]; Some [PInt 77; PBool false]].
+Proof. vm_compute. reflexivity. Qed.
+
 (* the hypothesis `well_typed` is needed (faithful model): a Python bool stored in a non-boolean
    parameter does not come back *)
 Theorem T14d_illtyped_refuted :
@@ -141,7 +175,10 @@ Print Assumptions T14e_pickle_roundtrip.
 (* non-vacuity: an identity pickle, a statistic computed from an input *)
 Example T14e_example :
   let derive := fun (snap : list (option nat)) (a : string) =>
-                  if String.eqb a "akaike" then nth 1 snap None else None in
+                  if String.eqb a "akaike"
+                  then match find (fun x => match x with Some _ => true | None => false end) snap with
+                       | Some x => x | None => None end     (* the only input present, wherever it is listed *)
+                  else None in
   let raw : obj nat := fun a => if String.eqb a "logLike" then Some 7%nat else None in
   let saved := results_of_raw stats_inputs stats_outputs derive raw in
   let '(data', bytes) := write_pickle (obj nat) (fun o => o) pickle_name_attr saved 0%nat in
